@@ -261,6 +261,9 @@ def shrink_caches(maxsize):
 def cache_stats():
     out = {}
     for key, (owner, attr) in discover_caches().items():
-        info = getattr(owner, attr).cache_info()
-        out[key] = (info.hits, info.misses, info.currsize)
+        try:
+            info = getattr(owner, attr).cache_info()
+            out[key] = (info.hits, info.misses, info.currsize)
+        except Exception:      # a cache that keeps no statistics
+            out[key] = (0, 0, 0)
     return out
